@@ -249,20 +249,20 @@ def check_zoom(B, bases, targets, out, case, kind, cols=("count",), nontrivial=T
                 if got["bins"] == cb and rows_close(got["pixels"], rows):
                     good = True
             cb, rows = cands[0].model(res // cands[0].res, [c for c in cols if c in got["value_columns"]])
-            B.check("derived-level==block-aggregate(base,r/b)", good, lcase, dict(bins=got["bins"], pixels=got["pixels"]),
+            B.check("derived-level==block-aggregate-of-base", good, lcase, dict(bins=got["bins"], pixels=got["pixels"]),
                     dict(bins=cb, pixels=rows), nontrivial and cands[0].nnz > 0,
-                    signature=f"derived-level==block-aggregate(base,r/b):{kind}")
+                    signature=f"derived-level==block-aggregate-of-base:{kind}")
             if list(cols) != ["count"]:
                 B.check("derived-level-has-requested-columns", got["value_columns"] == list(cols), lcase, got["pixel_columns"],
                         ["bin1_id", "bin2_id"] + list(cols), signature=f"derived-level-has-requested-columns:{kind}")
             else:
-                d = B.guarded("derived-level==coarsen_cooler(base,r/b)", lcase, lambda: cands[0].direct(res // cands[0].res),
-                              signature=f"derived-level==coarsen_cooler(base,r/b):exception:{kind}")
+                d = B.guarded("derived-level==coarsen_cooler-of-base", lcase, lambda: cands[0].direct(res // cands[0].res),
+                              signature=f"derived-level==coarsen_cooler-of-base:exception:{kind}")
                 if d is not None:
-                    B.check("derived-level==coarsen_cooler(base,r/b)", got["bins"] == d["bins"] and got["pixels"] == d["pixels"]
+                    B.check("derived-level==coarsen_cooler-of-base", got["bins"] == d["bins"] and got["pixels"] == d["pixels"]
                             and got["indexes"] == d["indexes"], lcase, dict(bins=got["bins"], pixels=got["pixels"], indexes=got["indexes"]),
                             dict(bins=d["bins"], pixels=d["pixels"], indexes=d["indexes"]), nontrivial and cands[0].nnz > 0,
-                            signature=f"derived-level==coarsen_cooler(base,r/b):{kind}")
+                            signature=f"derived-level==coarsen_cooler-of-base:{kind}")
 
 
 def run_zoom(B, bases, targets, cs, nproc, tag, kind=None, cols=None, uris=None, nontrivial=True, extra_case=None):
